@@ -16,7 +16,7 @@ from ..gen import Gen, assign_ids
 PID = "C01"
 LEVEL = "exploration"
 ENGINE = "ctxsim"
-REACH = ['outcome:accept', 'outcome:reject', 'outcome:AnnotationError']  # counters (prefixes) that a healthy batch makes non-zero; gaps are reported in the evidence
+REACH = ['reentrant_checks', 'history_shadow_judged', 'outcome:accept', 'outcome:reject', 'outcome:AnnotationError']  # counters (prefixes) that a healthy batch makes non-zero; gaps are reported in the evidence
 BUDGET = {"quick": 35, "thorough": 600}
 RULE = (
     "Seeded single-thread histories: nested jaxtyped('context') blocks and typechecker=None calls (arguments k, o "
